@@ -125,6 +125,11 @@ def to_cel(mv: Tuple[str, Any]) -> Any:
         return ct.DurationType(datetime.timedelta(microseconds=p))
     if tag == "type":
         return TYPE_OBJECTS()[p]
+    if tag == "hostfn":
+        # a host callable as the VALUE of a binding (celpy's Context type admits functions); p names a function of verifmon.hostfuncs
+        from . import hostfuncs
+
+        return getattr(hostfuncs, p)
     raise ValueError(tag)
 
 
